@@ -2,7 +2,8 @@
 // objective function) and records what happens.  It drives and records only: no expected value, no
 // comparison, no property formula — TLC (Trace_LmToProj.tla) decides.
 //
-//   c14_lmtoproj hist <out.ndjson> <runs> <maxlen> <stage>    histogramming runs (stage 0 quick family, 1 thorough)
+//   c14_lmtoproj hist <out.ndjson> <runs> <maxlen> <stage> [<scratch dir>]   histogramming runs (stage 0 quick family, 1 thorough);
+//                                                              with a scratch directory some executions write Interfile output
 //   c14_lmtoproj long <out.ndjson> <runs> <len>               few long streams (10^3..10^4 records)
 //   c14_lmtoproj grad <out.ndjson> <runs> <stage>             list-mode gradient vs projection-data gradient (ray tracing, fixed point)
 //   c14_lmtoproj gradx <out.ndjson> <runs> <stage>            the same on the explicit-matrix seam (exact instances)
@@ -19,11 +20,15 @@
 //   St       id pos                  ListModeData::set_get_position
 //   FrameStart f / Rewind f / Save s0 s1 t0 t1     hooks lm.framestart / lm.rewind / lm.save
 //   Out      f, part, nz: [[seg, ax, view, tang, tof, value*16], ...]   non-zero bins of the output projection data
+//            (file output: read back from <prefix>_f<n>g1d0b0.hs, with the frame times of its header in ms)
 //   End      err
 #include "vh_listmode.h"
 #include "vh_explicit_matrix.h"
 #include "stir/listmode/LmToProjData.h"
 #include "stir/ProjDataInMemory.h"
+#include "stir/ProjData.h"
+#include "stir/ExamInfo.h"
+#include <cmath>
 #include "stir/SegmentByView.h"
 #include "stir/TimeFrameDefinitions.h"
 #include "stir/VoxelsOnCartesianGrid.h"
@@ -37,6 +42,7 @@
 using namespace stir;
 
 static vh::Trace* g_tr = nullptr;
+static std::string g_scratch;    // directory for file output ("" = none)
 static bool g_log_reads = true;
 
 // ---------------------------------------------------------------- hook call-out (sites in LmToProjData.cxx)
@@ -146,7 +152,7 @@ protected:
   void start_new_time_frame(const unsigned int f) override { if (on_new_frame) on_new_frame(f); }
 };
 
-static void emit_out(vh::Trace& tr, const ProjData& pd, int frame, bool part) {
+static void emit_out(vh::Trace& tr, const ProjData& pd, int frame, bool part, bool with_times = false) {
   std::vector<std::vector<long long>> nz;
   for (int k = pd.get_min_tof_pos_num(); k <= pd.get_max_tof_pos_num(); ++k)
     for (int s = pd.get_min_segment_num(); s <= pd.get_max_segment_num(); ++s) {
@@ -158,7 +164,21 @@ static void emit_out(vh::Trace& tr, const ProjData& pd, int frame, bool part) {
             if (x != 0.F) nz.push_back({ s, a, v, tp, k, vh::fx(x, 4) });
           }
     }
-  tr.emit(vh::Json("Out").num("f", frame).boolean("part", part).arr2("nz", nz));
+  vh::Json j("Out");
+  j.num("f", frame).boolean("part", part).arr2("nz", nz);
+  if (with_times) {
+    const TimeFrameDefinitions& tf = pd.get_exam_info().get_time_frame_definitions();
+    j.num("hdrFrames", tf.get_num_frames());
+    if (tf.get_num_frames() >= 1) j.num("hdrStart", std::llround(tf.get_start_time(1) * 1000.)).num("hdrEnd", std::llround(tf.get_end_time(1) * 1000.));
+  }
+  tr.emit(j);
+}
+
+static void emit_file_out(vh::Trace& tr, const std::string& prefix, int frame) {
+  char rest[50];
+  sprintf(rest, "_f%dg1d0b0.hs", frame);
+  shared_ptr<ProjData> pd = ProjData::read_from_file(prefix + rest);
+  emit_out(tr, *pd, frame, false, true);
 }
 
 struct Settings {
@@ -167,6 +187,7 @@ struct Settings {
   long nStore = 0;
   std::vector<std::pair<long, long>> frames;   // ms
   std::string cls = "plain";
+  std::string file_prefix;                     // non-empty: output to Interfile projection data <prefix>_f<n>g1d0b0.hs
 };
 
 static long g_cfg_id = 0;
@@ -182,7 +203,7 @@ static void run_hist(vh::Trace& tr, const Geo& g, const Settings& st, const std:
     std::vector<std::vector<long long>> fr;
     for (auto& f : st.frames) fr.push_back({ f.first, f.second });
     j.num("segIM", st.segIM).num("tofIM", st.tofIM).num("maxSegProc", st.maxSegProc).boolean("storeP", st.storeP).boolean("storeD", st.storeD)
-        .boolean("hasD", st.hasD).boolean("fresh", st.fresh).num("nStore", st.nStore).arr2("frames", fr).num("len", (long long)recs.size());
+        .boolean("hasD", st.hasD).boolean("fresh", st.fresh).boolean("fileOut", !st.file_prefix.empty()).num("nStore", st.nStore).arr2("frames", fr).num("len", (long long)recs.size());
     tr.emit(j);
   }
   {
@@ -205,14 +226,22 @@ static void run_hist(vh::Trace& tr, const Geo& g, const Settings& st, const std:
   g_hook = [&](const char* site, long a, long b, long c, long d) {
     if (!std::strcmp(site, "lm.batch")) {
       // everything saved so far in this frame is in the output now
-      if (snapshots && l2p.output()) emit_out(tr, *l2p.output(), cur_frame, true);
+      if (snapshots && !file_out && l2p.output()) emit_out(tr, *l2p.output(), cur_frame, true);
       tr.emit(vh::Json("Batch").num("s0", a).num("s1", b).num("t0", c).num("t1", d));
     } else if (!std::strcmp(site, "lm.save")) tr.emit(vh::Json("Save").num("s0", a).num("s1", b).num("t0", c).num("t1", d));
     else if (!std::strcmp(site, "lm.framestart")) tr.emit(vh::Json("FrameStart").num("f", a));
     else if (!std::strcmp(site, "lm.rewind")) tr.emit(vh::Json("Rewind").num("f", a));
     else tr.emit(vh::Json("Hook").str("site", site));
   };
+  const bool file_out = !st.file_prefix.empty();
   l2p.on_new_frame = [&](unsigned f) {
+    if (file_out) {
+      // the previous frame's file is complete and closed by now
+      if (cur_frame > 0) emit_file_out(tr, st.file_prefix, cur_frame);
+      cur_frame = (int)f;
+      tr.emit(vh::Json("NewFrame").num("f", f));
+      return;
+    }
     if (cur_frame > 0 && l2p.output()) emit_out(tr, *l2p.output(), cur_frame, false);
     cur_frame = (int)f;
     tr.emit(vh::Json("NewFrame").num("f", f));
@@ -225,7 +254,7 @@ static void run_hist(vh::Trace& tr, const Geo& g, const Settings& st, const std:
   bool err = vh::threw([&] {
     l2p.set_input_data(lm);
     l2p.set_template_proj_data_info_sptr(templ);
-    l2p.set_output_filename_prefix("c14-unused");
+    l2p.set_output_filename_prefix(file_out ? st.file_prefix : std::string("c14-unused"));
     l2p.set_num_segments_in_memory(st.segIM);
     l2p.set_num_tof_bins_in_memory(st.tofIM);
     l2p.set_max_segment_num_to_process(st.maxSegProc);
@@ -248,7 +277,8 @@ static void run_hist(vh::Trace& tr, const Geo& g, const Settings& st, const std:
   }
   if (!err) {
     err = vh::threw([&] { l2p.process_data(); }, &msg);
-    if (!err && l2p.output()) emit_out(tr, *l2p.output(), cur_frame, false);
+    if (!err && file_out) err = vh::threw([&] { emit_file_out(tr, st.file_prefix, cur_frame); }, &msg);
+    else if (!err && l2p.output()) emit_out(tr, *l2p.output(), cur_frame, false);
   }
   g_hook = nullptr;
   vh::Json e("End");
@@ -286,8 +316,8 @@ static void mode_hist(vh::Trace& tr, long runs, int maxlen, int stage, vh::Rng& 
     shared_ptr<ProjDataInfo> templ = make_template(sc, g);
     const int nseg = templ->get_num_segments(), ntof = templ->get_num_tof_poss();
     Settings base;
-    const int flags = rng.range(0, 5);
-    base.storeP = flags != 5; base.storeD = flags != 3 && flags != 4;       // (T,T) x3, (T,F) x2, (F,T) x1
+    const int flags = run % 29 == 28 ? 6 : rng.range(0, 5);
+    base.storeP = flags < 5; base.storeD = flags != 3 && flags != 4 && flags != 6;       // (T,T) x3, (T,F) x2, (F,T) x1; rarely (F,F): set_up must refuse
     base.hasD = rng.range(0, 5) != 0;
     base.fresh = rng.range(0, 3) != 0;
     if (rng.range(0, 4) == 0) base.maxSegProc = rng.range(0, templ->get_max_segment_num() + 1);
@@ -304,6 +334,11 @@ static void mode_hist(vh::Trace& tr, long runs, int maxlen, int stage, vh::Rng& 
     } else {
       recs = random_stream(rng, g, rng.range(kind == 0 ? 0 : 1, maxlen), base.hasD, sparse, true);
       if (kind != 4) base.frames = random_frames(rng, 4, last_mark(recs));
+      if (sparse) {        // narrow contiguous frames, so that the large steps between time marks jump over some of them
+        base.frames.clear();
+        const int n = rng.range(3, 4);
+        for (int i = 0; i < n; ++i) base.frames.push_back({ 125L * i, 125L * (i + 1) + (i == n - 1 ? 125L * rng.range(0, 4) : 0) });
+      }
       base.cls = sparse ? "sparse" : kind == 4 ? "noframes" : "frames";
     }
     // the same stream under several batch sizes (always including 1 and all)
@@ -314,6 +349,16 @@ static void mode_hist(vh::Trace& tr, long runs, int maxlen, int stage, vh::Rng& 
       Settings st = base;
       st.segIM = im.first; st.tofIM = im.second;
       run_hist(tr, g, st, recs, true);
+    }
+    // the same through Interfile output files, one per frame (scratch directory given on the command line)
+    if (!g_scratch.empty() && run % 4 == 1) {
+      Settings st = base;
+      st.fresh = true;
+      st.segIM = ims.back().first; st.tofIM = ims.back().second;
+      st.file_prefix = g_scratch + "/c14out" + std::to_string(run);
+      run_hist(tr, g, st, recs, false);
+      for (int f = 1; f <= 8; ++f)
+        for (const char* ext : { ".hs", ".s" }) std::remove((st.file_prefix + "_f" + std::to_string(f) + "g1d0b0" + ext).c_str());
     }
     // frames of a partition add up: the whole interval as one frame (same stream, same settings)
     if (base.frames.size() > 1 && rng.coin()) {
@@ -349,7 +394,7 @@ static void mode_allbatch(vh::Trace& tr, long runs, int maxlen, vh::Rng& rng) {
 static void mode_long(vh::Trace& tr, long runs, int len, vh::Rng& rng) {
   for (long run = 0; run < runs; ++run) {
     Geo g = random_geo(rng, 0, true);
-    g.R = std::min(g.R, 3);
+    while (g.R > 3) g = random_geo(rng, 0, true);
     shared_ptr<Scanner> sc = vh::make_scanner(g.N, g.R, g.maxT);
     shared_ptr<ProjDataInfo> templ = make_template(sc, g);
     Settings st;
@@ -365,7 +410,8 @@ static void mode_long(vh::Trace& tr, long runs, int len, vh::Rng& rng) {
     const int nf = rng.range(2, 4);
     long t = 0;
     for (int i = 0; i < nf; ++i) { long e = i == nf - 1 ? total : std::max(t + 125, (total * (i + 1) / nf) / 125 * 125); st.frames.push_back({ t, e }); t = e; }
-    st.segIM = rng.range(1, templ->get_num_segments()); st.tofIM = rng.range(1, templ->get_num_tof_poss());
+    // at most 2 x 2 passes over the long stream
+    st.segIM = rng.coin() ? -1 : (templ->get_num_segments() + 1) / 2; st.tofIM = rng.coin() ? -1 : (templ->get_num_tof_poss() + 1) / 2;
     run_hist(tr, g, st, recs, false);
   }
 }
@@ -654,7 +700,7 @@ int main(int argc, char** argv) {
   g_tr = &tr;
   const long runs = atol(argv[3]);
   vh::Rng rng(vh::seed_from_env());
-  if (mode == "hist") mode_hist(tr, runs, argc > 4 ? atoi(argv[4]) : 40, argc > 5 ? atoi(argv[5]) : 0, rng);
+  if (mode == "hist") { if (argc > 6) g_scratch = argv[6]; mode_hist(tr, runs, argc > 4 ? atoi(argv[4]) : 40, argc > 5 ? atoi(argv[5]) : 0, rng); }
   else if (mode == "allbatch") mode_allbatch(tr, runs, argc > 4 ? atoi(argv[4]) : 30, rng);
   else if (mode == "long") mode_long(tr, runs, argc > 4 ? atoi(argv[4]) : 2000, rng);
   else if (mode == "gradx") for (long i = 0; i < runs; ++i) run_gradx(tr, rng, argc > 4 ? atoi(argv[4]) : 0);
